@@ -40,6 +40,29 @@ func runC13(p *Prog, r *Report) {
 		checkFileGenerator(p, r, fn)
 	}
 	r.Count("file_generators", n)
+	if n < 2 {
+		r.Viol("C13.R1", "file generators", "-", "both target-file readers (address file, address/port file) are bufio.Scanner loops", fmt.Sprintf("found %d", n))
+	}
+	// any other loop in pkg/scan that decodes target lines is outside the line-reading discipline this
+	// rule models (bufio.Reader.ReadLine prefixes, hand-written splitting): undecided, never silently accepted
+	for _, fn := range p.SrcFuncs() {
+		if fn.Pkg != p.SPkg("pkg/scan") || callsNamed(fn, "(*bufio.Scanner).Scan") {
+			continue
+		}
+		inLoop := false
+		for h := range LoopHeaders(fn) {
+			for b := range loopBlocks(h) {
+				for _, in := range b.Instrs {
+					if c, ok := in.(*ssa.Call); ok && calleeName(&c.Call) == "UnmarshalJSON" {
+						inLoop = true
+					}
+				}
+			}
+		}
+		if inLoop {
+			r.Undecided("C13.R1", FuncName(fn)+"/line-reader", p.Pos(fn.Pos()), "target lines are read with bufio.Scanner (one token per line, over-long lines end the scan with one error)", "a loop decodes target entries without a bufio.Scanner: its handling of over-long and partial lines is not modelled")
+		}
+	}
 	// decode-in-loop sites anywhere in the repo (R2)
 	for _, fn := range p.SrcFuncs() {
 		checkStaleDecodeTarget(p, r, fn)
